@@ -65,6 +65,16 @@ EventErrs(e) ==
                        SortedSeq({ND(e.out[i][b][k]) : k \in 1..Len(e.out[i][b])}, LeftTok))
     [] e.a = "gap_degree" ->
          Fail("C16.tree", C16tree(T, e.out))
+    [] e.a = "three_notions" ->
+         Fail("C16.three_notions", C16threeNotions(T, e.gd, e.refuses = "T", e.cf = "T"))
+    [] e.a = "disco_order" ->
+         Fail("C16.disco_order", C16discoOrder(T, NDS(e.left)) /\ C16discoOrder(T, NDS(e.rightd)))
+    [] e.a = "analysis" ->
+         LET TB == [k \in 1..Len(e.trees) |-> Abs(e.trees[k])] IN
+         Fail("C16.report.totals",
+              /\ \A k \in 1..Len(e.trees) : WF(e.trees[k])
+              /\ C16reportGap(TB, e.ntrees, e.nnodes, e.pertree, e.pernode)
+              /\ C16reportTags(TB, e.ntags) /\ C16reportCount(TB, e.nsent))
     [] OTHER -> {"trace.unknown_event"}
 
 Case == Cases[tid]
